@@ -249,6 +249,40 @@ def r2(chk, prog):
             lv = children(lp[0])[1]['decls'][0]['name'] if lp else None
             src_ok = mentions_var(a[1], lv) and mentions_call(a[1], 'c_str')
     chk.check(bool(lp) and src_ok, 'R2', g.name, 'every word is copied unchanged into the argv array', g.loc())
+    # ... and the constructors hand the words of the splitter on as they are: the local word list is filled by
+    # splitString(), measured, and given to copyArguments() - nothing removes, adds or rewrites a word in between
+    # (every file line, the environment variable and evalArgumentString() come through here without a program name)
+    ctors = [x for x in prog.functions if (x.classq or '').endswith('appl::ArgString2Array') and x.d.get('ctor')
+             and x.body is not None and any(callee_is(c, 'splitString') for c in x.calls())]
+    chk.require(len(ctors) >= 2, 'constructors of ArgString2Array that split a string: %d' % len(ctors))
+    READ_ONLY = ('size', 'empty', 'capacity', 'cbegin', 'cend', 'length')
+    for cf in ctors:
+        words = [d for ds in cf.walk() if ds.get('k') == 'DeclStmt' for d in ds.get('decls', [])
+                 if 'vector' in (d.get('t') or '') and 'basic_string' in (d.get('t') or '')]
+        chk.require(len(words) == 1, '%s: local word list not found' % cf.name)
+        did = words[0].get('did')
+        other = []
+        handed_on = 0
+        for x in cf.walk():
+            if x.get('k') != 'DeclRefExpr' or x['ref'].get('did') != did:
+                continue
+            p_ = cf.parent(x)
+            while p_ is not None and p_.get('k') in ('ImplicitCastExpr', 'ParenExpr', 'MemberExpr'):
+                p_ = cf.parent(p_)
+            if p_ is not None and p_.get('k') in CALL_KINDS:
+                short = (p_.get('callee') or '').split('::')[-1]
+                if short == 'splitString':
+                    continue
+                if short == 'copyArguments':
+                    handed_on += 1
+                    continue
+                if p_.get('k') == 'CXXMemberCallExpr' and short in READ_ONLY:
+                    continue
+                other.append('%s() in line %s' % (short, p_.get('l')))
+            else:
+                other.append('line %s' % x.get('l'))
+        chk.check(handed_on == 1 and not other, 'R2', cf.name, 'the words of the splitter are handed to the argv array '
+                  'as they are (none removed, added or rewritten)', cf.loc(), 'other uses of the word list: %s' % other)
 
 
 def r4_pairing_state_survives_chunks(chk, prog):
